@@ -23,8 +23,15 @@ def soup(rnd):
 def check_one(rep, binary, prog, input_text, env, kind):
     replay = {"kind": "c30cli", "prog": prog, "input": input_text, "class": kind}
     args = ["jq", "-c", prog] if input_text is not None else ["jq", "-n", "-c", prog]
-    r = climon.run_cli(binary, args, stdin=(input_text or "").encode("utf-8"), timeout=30, env=env)
+    try:
+        r = climon.run_cli(binary, args, stdin=(input_text or "").encode("utf-8"), timeout=30, env=env)
+    except climon.NulInArgv:
+        rep.count("skipped.nul_in_program_text")
+        return
     rep.eval()
+    if r.timeout and r.err.startswith(b"NUL byte"):
+        rep.count("skipped.nul_in_program_text")
+        return
     if r.timeout:
         rep.inconc({"why": "watchdog 30s", "prog": prog[:200]})
         rep.count("watchdog")
@@ -34,7 +41,7 @@ def check_one(rep, binary, prog, input_text, env, kind):
         rep.violation(f"C30:cli:{sig}" if sig.startswith("panic:") else f"C30:cli:{sig}:{kind}",
                       f"succinctly jq {prog[:160]!r} on {str(input_text)[:80]!r} died rc={r.rc}: {r.err[-240:]!r}", replay)
         return
-    rep.count({0: "exit.ok", 5: "exit.jq_error", 3: "exit.parse_error"}.get(r.rc, "exit.other"))
+    rep.count({0: "exit.ok", 5: "exit.jq_error", 1: "exit.reported_error", 3: "exit.reported_error", 2: "exit.usage"}.get(r.rc, "exit.other"))
 
 
 def run(leg, seed, tier, replay=None):
@@ -73,5 +80,5 @@ def run(leg, seed, tier, replay=None):
         rep.sample({"prog": j[0][:200], "input": j[1], "class": j[2]})
     rep.require("exit.ok", 50)
     rep.require("exit.jq_error", 20)
-    rep.require("exit.parse_error", 20)
+    rep.require("exit.reported_error", 20)
     return rep.to_json(seed, tier)
